@@ -16,15 +16,18 @@ def main():
     ap.add_argument("--out", required=True)
     ap.add_argument("--seed", type=int, default=0)
     ap.add_argument("--ns", default="3,4,5,6")
-    ap.add_argument("--seeds", type=int, default=3)
+    ap.add_argument("--seeds", default="3", help="seeds per (name, n): one number or a comma list aligned with --ns")
     a = ap.parse_args()
     files = []
     tid = 0
     names = [k for k in GENERATORS if k != "convex"]
-    for n in [int(x) for x in a.ns.split(",")]:
+    ns = [int(x) for x in a.ns.split(",")]
+    seeds_per_n = [int(x) for x in str(a.seeds).split(",")]
+    seeds_per_n += [seeds_per_n[-1]] * (len(ns) - len(seeds_per_n))
+    for n, nseeds in zip(ns, seeds_per_n):
         traces = []
         for name in names:
-            for s in range(a.seeds):
+            for s in range(nseeds):
                 tid += 1
                 seed = a.seed * 100003 + s * 7919 + n
                 t = {"tid": tid, "name": name, "n": n, "seed": seed, "exc": "", "v": [], "v2": [], "players": 0, "empty_zero": 0, "float64": 0,
